@@ -166,3 +166,30 @@ Proof.
     destruct Hin as (_ & Hco' & Hsim'). intros fuel p.
     rewrite (override_refines false st' ri Hco'). apply sfield_sim. exact Hsim'.
 Qed.
+
+(* ------------------------------------------------------------------------- satisfiability
+   let s0 = {a | default = 1, c = {d = a + 1, e = d * 2}} in let s1 = {a = 5} in let s2 = s0 & s1 in
+   let s3 = {c = {d | force = 10}} in let s4 = s2 & s3 in ...        (a = 0, c = 2, d = 3, e = 4) *)
+Definition h_nested : history :=
+  [ SLit [(0%N, {| fprio := PBot; fbody := Some (STm (Num 1)); fdyn := false; fctrs := [] |});
+          (2%N, {| fprio := PNeut; fdyn := false; fctrs := [];
+                   fbody := Some (SSub [(3%N, {| f0prio := PNeut; f0body := Some (Add (Var 0%N) (Num 1)); f0dyn := false; f0ctrs := [] |});
+                                        (4%N, {| f0prio := PNeut; f0body := Some (Mul (Var 3%N) (Num 2)); f0dyn := false; f0ctrs := [] |})]) |})];
+    SLit [(0%N, {| fprio := PNeut; fbody := Some (STm (Num 5)); fdyn := false; fctrs := [] |})];
+    SMerge 0 1;
+    SLit [(2%N, {| fprio := PNeut; fdyn := false; fctrs := [];
+                   fbody := Some (SSub [(3%N, {| f0prio := PTop; f0body := Some (Num 10); f0dyn := false; f0ctrs := [] |})]) |})];
+    SMerge 2 3 ].
+
+Definition inner_fields (c : cfg) (h : history) (i : nat) (k : N) : list (N * outcome) :=
+  let (st, slots) := irun c h in
+  match nth_error slots i with
+  | Some (Rid r) => match inst c 6 st r k with Some (st', ri) => ifields 6 st' ri | None => [] end
+  | _ => []
+  end.
+
+Example nested_fields_recomputed :
+  inner_fields cfg_fixed h_nested 0 2%N = [(3%N, Ok 2); (4%N, Ok 4)] /\       (* the operand: a = 1 *)
+  inner_fields cfg_fixed h_nested 2 2%N = [(3%N, Ok 6); (4%N, Ok 12)] /\      (* a overridden: d = a + 1 = 6 *)
+  inner_fields cfg_fixed h_nested 4 2%N = [(4%N, Ok 20); (3%N, Ok 10)].       (* d overridden inside: e = d * 2 *)
+Proof. repeat split; vm_compute; reflexivity. Qed.
